@@ -36,6 +36,7 @@ def run(tier):
     from harness import probes
     probes.stacked_constraints_probe(R, {"accept"})
     probes.flatten_probe(R)
+    probes.literal_equal_values_probe(R)
     probes.aggregate_probe(R, aspects=("dispatch",), n_classes=(40 if tier == "quick" else 300))
     return R.finish(
         rule="random universes (dataclass/NamedTuple/TypedDict, enums), random types of depth<=3 over the modelled grammar, "
